@@ -255,6 +255,17 @@ func (c *cscan) block(stmts []ast.Stmt) ([]cstep, error) {
 			if s.Else != nil {
 				return nil, fmt.Errorf("if with else")
 			}
+			// `if recv.flag { steps }`
+			if sel, ok := s.Cond.(*ast.SelectorExpr); ok && s.Init == nil && c.flagField != "" && sel.Sel.Name == c.flagField {
+				if c.flagValue {
+					inner, err := c.block(s.Body.List)
+					if err != nil {
+						return nil, err
+					}
+					out = append(out, inner...)
+				}
+				continue
+			}
 			// `if !recv.flag { steps }`
 			if u, ok := s.Cond.(*ast.UnaryExpr); ok && s.Init == nil && u.Op == token.NOT {
 				if sel, ok := u.X.(*ast.SelectorExpr); ok && c.flagField != "" && sel.Sel.Name == c.flagField {
@@ -317,6 +328,9 @@ func (c *cscan) block(stmts []ast.Stmt) ([]cstep, error) {
 						}
 					}
 				}
+			}
+			if len(s.Results) == 1 && exprText(s.Results[0]) == "false" {
+				continue // the chain simply ends
 			}
 			k, desc, err := c.retStep(s)
 			if err != nil {
@@ -555,6 +569,8 @@ func cmpscanMain(args []string) {
 				ast.Inspect(fd.Body, func(n ast.Node) bool {
 					if call, ok := n.(*ast.CallExpr); ok {
 						if sel, ok := call.Fun.(*ast.SelectorExpr); ok && (exprText(sel.X) == "sort" || exprText(sel.X) == "slices") {
+							sites = append(sites, site{fname, fn, exprText(call)})
+						} else if n := lastName(call.Fun); n == "Sort" || n == "SortTags" || n == "SortNodes" || n == "sortedKeys1" || n == "sortedKeys2" {
 							sites = append(sites, site{fname, fn, exprText(call)})
 						}
 					}
